@@ -861,8 +861,13 @@ def run(tier: str) -> int:
         "model lean/Koreo/Encoder.lean hand-transcribed from the repaired src/koreo/cel/encoder.py; escape table and "
         "delimiter rule read off the running encoder by harness/extractors/EncoderTables.py and proved equal to the model's",
         "celpy 0.3.0's string/number literal lexing and un-escaping (STRING_LIT, MLSTRING_LIT, INT_LIT, FLOAT_LIT, celstr, "
-        "CEL_ESCAPES) — modelled as lexString/lexNumber, validated by this run's lexer differential; its tokenisation "
-        "between literals ([ ] { } , :) is a token-level abstraction and is not modelled",
+        "CEL_ESCAPES) — modelled as lexString/lexNumber, validated by this run's lexer differential",
+        "celpy's contextual lexer on the emitted sub-language — modelled as the character-level `tokenize`: WHITESPACE "
+        "ignored; FLOAT_LIT tried before INT_LIT and both before the MINUS operator where a value may start; greedy "
+        "number match with an exponent only when complete; MLSTRING_LIT before STRING_LIT, first closing delimiter not "
+        "consumed by an escape; an identifier run is BOOL_LIT/NULL_LIT exactly when it is true/false/null; single-character "
+        "punctuation; the LALR parser builds lists/maps from the tokens as `pVal` does — validated by this run's "
+        "token-stream differential (real celpy's lexer+parser vs the model tokenizer on emitted and hand-built texts)",
         "exact-text differential encode_cel vs the compiled Lean encodeCel (harness/c11.py)",
         "Python str(int), repr(float) for multiples of 1/8 below 2^50, re.fullmatch, str.translate (modelled)",
         "IEEE rounding of decimal numerals (float(text)) is not modelled: the model keeps the exact decimal",
@@ -961,6 +966,10 @@ def run(tier: str) -> int:
         ck.evaluated()
         real = celpy_tokens(t)
         model = None if isinstance(ans["toks"], dict) else ans["toks"]
+        if isinstance(ans["parsed"], dict) and ans["parsed"].get("none"):
+            # tokens that do not form a value of the sub-language (`[1-2]`, `[1 2]`, `["a""b"]`): real celpy lexes
+            # by parser context there (a `-` after a literal is the operator) — outside what the model claims
+            model = None
         emitted = i < len(tokq)
         ck.count("tokens:emitted-text" if emitted else f"tokens:hand-text-{'in' if model is not None else 'outside'}-sublanguage")
         if emitted:
@@ -1017,7 +1026,8 @@ def run(tier: str) -> int:
         widen=lambda c: search(c, quick_budget=False, salt="widen"),
         rule="JSON values of depth 0-3 biased to hard strings (every ASCII control and punctuation character, escape "
              "look-alikes, quote runs of 1-4 at start/middle/end, numerals and one-edit near-numerals, Unicode digits, "
-             "blanks, empty containers, int64 extremes, floats k/8): exact text of encode_cel vs the model; celpy vs the "
+             "blanks, empty containers, int64 extremes, floats k/8): exact text of encode_cel vs the model; real celpy's token stream vs the model tokenizer on the "
+             "emitted texts (and on hand-built texts of the sub-language incl. white space, 1. .5 1.e5); celpy vs the "
              "model lexer on the emitted literals and on hand-built literal texts; the real pipeline on five routes "
              "(expression, ValueFunction return/locals, ResourceFunction resource/overlay POST body, Workflow "
              "inputs/state, Workflow `state` of eight Ok steps whose Logic returns null, null, [], {} and their truthy "
